@@ -56,8 +56,11 @@ def generate(seed_: int, run: int, reactions: list[str], deep: bool = False) -> 
             op["form"] = rng.choices(["dict", "list", "zip", "generator", "items", "shared"], weights=[5, 1, 1, 1, 1, 2])[0]
             ops.append(op)
         elif r < 0.66:
-            ops.append({"op": "transient", "slot": slot, "pick": rng.randrange(500)})
-            ops.append({"op": "clone", "slot": rng.randrange(64), "how": rng.choice(["pickle", "deepcopy"])})
+            # a twice-renamed temporary dies, a clone of the same model is made (likely at a freed address)
+            # and the very parameter that the temporary had renamed is renamed on the clone
+            pick = rng.randrange(500)
+            ops.append({"op": "transient", "slot": slot, "pick": pick, "clone": rng.choice(["pickle", "deepcopy"])})
+            ops.append({"op": "rename", "slot": -1, "kind": "fresh", "form": "dict", "picks": [pick]})
         elif r < 0.85:
             ops.append({"op": "set", "slot": slot, "pick": rng.randrange(500),
                         "how": rng.choice(["symbol", "name", "index"]),
